@@ -6,7 +6,7 @@ import (
 
 // C12 — the chain stays a well-formed path and survives reopen unchanged.
 
-var zzNamePool = []string{"s1", "s2", "volume-snap-s1.img", "volume-head-000.img", "volume-head-001.img", "nosuch", ""}
+var zzNamePool = []string{"s1", "s2", "volume-snap-s1.img", "volume-head-000.img", "volume-head-001.img", "nosuch", "", "volume.meta"}
 
 // zzPickName concretises a name from the pool (valid, protected, unknown, empty).
 func zzPickName(tag string) string {
